@@ -67,6 +67,28 @@ def _inv(s):
     ]
 
 
+def _post(old, new, ret):
+    """what a caller sees (the vector of granted pilots is a local of the function): the same sessions in some order, each either with its first lower
+    bound raised to the station's (overridden) minimum pilot - not above its remaining demand - and the first upper bound at least as large, or with both
+    first bounds 0"""
+    inf = old.infrastructure
+    H = z3.ArraySort(z3.IntSort(), z3.RealSort())
+    mn0, mx0 = old.heap_array("SessionInfo.min_rates#0", H), old.heap_array("SessionInfo.max_rates#0", H)
+    j = z3.Int("j!mcp")
+    e = sess_at(new, ret, j)
+    mn1, _ = _rates(new, e.ref, "min_rates")
+    mx1, _ = _rates(new, e.ref, "max_rates")
+    old_mn, old_mx = z3.Select(z3.Select(mn0, e.ref), 0), z3.Select(z3.Select(mx0, e.ref), 0)
+    m = _floor_pilot(inf, e, old.override)
+    new_mn = z3.If(m >= old_mn, m, old_mn)
+    granted = z3.And(z3.Select(mn1, 0) == new_mn, z3.Select(mx1, 0) == z3.If(old_mx < new_mn, new_mn, old_mx), m <= _rap_u(inf, e, old.period))
+    off = z3.And(z3.Select(mn1, 0) == 0, z3.Select(mx1, 0) == 0)
+    return [
+        ("same_number_of_sessions_each_at_a_registered_station", And(ret.len == old.active_sessions.len, sessions_ok(new, ret, inf, "mcp"))),
+        ("C07.every_session_is_granted_its_minimum_pilot_or_switched_off", FA([j], z3.Implies(z3.And(j >= 0, j < ret.len), z3.Or(granted, off)), patterns=[ty.sel(ret.v.arrs[0], j)])),
+    ]
+
+
 REG.contract(
     PRE + "apply_minimum_charging_rate", params=dict(active_sessions=Seq(Ref("SessionInfo")), infrastructure=Ref("InfrastructureInfo"), period=Real, override=Real),
     ret=Seq(Ref("SessionInfo")),
@@ -74,7 +96,7 @@ REG.contract(
               C("bounds_wf", lambda s: And(_wf(s, s.active_sessions, s.infrastructure), _objects_distinct(s.active_sessions))),
               C("period_nonzero", lambda s: s.period != 0)],
     modifies=[("SessionInfo.max_rates", "ALL"), ("SessionInfo.min_rates", "ALL")],
-    ensures=[],          # the function returns the (re-ordered) list; what it did to the sessions is stated where the loop ends (at_exit): a postcondition does not see `rates`
+    ensures=[C("C07.apply_minimum_charging_rate", _post, props=("C07",))],      # the feasibility of the granted pilots is stated where the loop ends (at_exit): `rates` is a local
     loops={0: LoopSpec(invariant=_inv, modifies=[("SessionInfo.max_rates", "ALL"), ("SessionInfo.min_rates", "ALL")],
                        ghost=lambda s: dict(q_in=s.session_queue, mn0=s.heap_array("SessionInfo.min_rates#0", z3.ArraySort(z3.IntSort(), z3.RealSort())),
                                             mx0=s.heap_array("SessionInfo.max_rates#0", z3.ArraySort(z3.IntSort(), z3.RealSort()))),
